@@ -899,6 +899,9 @@ static int under_memcheck(void) { return strcmp(vrt_config, "rel-plain") == 0; }
 /* C19 on a table with 2^16 -> 2^17 -> 40000 buckets and 70000 elements: the per-operation bound and the
  * finish bound must not depend on the table size */
 #define BIGN 70000
+static int big_visit(const void *e, void *p) { (void)e; ++*(size_t *)p; return 0; }
+static size_t *big_clear_seen;
+static void big_clear_cb(void *e, void *p) { (void)e; (void)p; ++*big_clear_seen; }
 static void run_bigtable(uint64_t which)
 {
     struct cstl_hash H;
@@ -963,11 +966,37 @@ static void run_bigtable(uint64_t which)
                 if (flips > 3) vrt_fail("hash.incr.whitebox.more-than-3-buckets-cleaned.big", "%d of %zu buckets changed their clean bit in one keyed call", flips, count);
             }
             VRT_COUNT("incr.big.keyed-while-pending");
+            if (mode != M_INCR && op >= 3000) break;    /* lookup/enum modes: leave the rehash pending, probe below */
         }
+        if (mode == M_ENUM) {
+            /* enumeration over a big, possibly still rehashing, table: every element exactly once */
+            size_t seen = 0;
+            memset(bits, 0, 131072);
+            VRT_OP1("hash.foreach_const", "big table phase %ld", phase);
+            if (cstl_hash_foreach_const(&H, big_visit, &seen) != 0 || seen != BIGN)
+                vrt_fail("hash.foreach_const.missed-element.big", "enumeration of the big table visited %zu of %d elements", seen, BIGN);
+            VRT_COUNT("probe.foreach_const.big");
+        }
+        if (mode != M_INCR) { VRT_OP0("hash.rehash", "big table"); cstl_hash_rehash(&H); }
         for (i = 0; i < BIGN; i++) shadow[i] = (uint32_t)fam(fnew, E[i].key, target);
         count = target;
     }
-    cstl_hash_clear(&H, NULL);
+    if (mode == M_ENUM) {
+        size_t seen = 0;
+        big_clear_seen = &seen;
+        VRT_OP0("hash.clear", "big table");
+        cstl_hash_clear(&H, big_clear_cb);
+        if (seen != BIGN) vrt_fail("hash.clear.missed-element.big", "clear of the big table handed over %zu of %d elements", seen, BIGN);
+    } else {
+        /* erase every other element, then every lookup must agree */
+        for (i = 0; i < BIGN; i += 2) cstl_hash_erase(&H, &E[i]);
+        if (cstl_hash_size(&H) != BIGN / 2) vrt_fail("hash.size.big", "size %zu after erasing half of %d", cstl_hash_size(&H), BIGN);
+        for (i = 0; i < BIGN; i++) {
+            void *r = cstl_hash_find(&H, E[i].key, NULL, NULL);
+            if ((r == &E[i]) != ((i & 1) != 0)) vrt_fail("hash.big.find-after-erase", "element %zu %s", i, (i & 1) ? "lost" : "found although erased");
+        }
+        cstl_hash_clear(&H, NULL);
+    }
     vrt_free(E); vrt_free(shadow); vrt_free(bits);
     VRT_COUNT("incr.big.cases");
     vrt_sig(0, 0xb16b16 + which);
@@ -980,7 +1009,7 @@ static uint64_t ncases(void)
     if (vrt_thorough && !under_memcheck()) { scopes = thorough_scopes; nscopes = sizeof(thorough_scopes) / sizeof(scopes[0]); }
     else { scopes = quick_scopes; nscopes = sizeof(quick_scopes) / sizeof(scopes[0]); }
     if (under_memcheck()) nscopes = 3;
-    return nscopes + nrandom() + (mode == M_INCR && !under_memcheck() ? NBIGT : 0);
+    return nscopes + nrandom() + (!under_memcheck() ? NBIGT : 0);
 }
 static void run_case(uint64_t idx)
 {
